@@ -262,21 +262,25 @@ def run(tier, seed, replay=None):
 
     # ---------------------------------------------------------------- twins and handedness
     for it in range(max(4, reps // 4)):
-        pd = rng.choice([2, 3])
-        cx = X.build(rng, pd, dim=pd, order=3, cells=[tuple([0] * pd)], kind='single')
+        pd = rng.choice([1, 2, 2, 3])
+        # the model may have a higher parametric dimension than the patches (surfaces or curves stored in a volume model)
+        mp = rng.choice([pd, min(3, pd + 1), 3])
+        mdim = max(mp, 2)
+        cx = X.build(rng, pd, dim=max(pd, 2) if pd < 3 else 3, order=3, cells=[tuple([0] * pd)], kind='single')
         p = cx['patches'][0]
+        p.set_dimension(mdim)
         twin = p.clone()
         mid = tuple(slice(1, -1) for _ in range(pd))
         twin.controlpoints[mid] += 0.05
         try:
-            m = SplineModel(pd, pd)
-            m.add(p)
+            m = SplineModel(mp, mdim)
+            m.add(p, **(dict(raise_on_twins=True) if it % 2 else {}))
             try:
-                m.add(twin)
-                fail('twins', describe(cx), 'a twin patch (same boundary, different interior) was accepted although raise_on_twins is on')
+                m.add(twin, **(dict(raise_on_twins=True) if it % 2 else {}))
+                fail('twins', dict(describe(cx), model_pardim=mp), 'a twin patch (same boundary, different interior) was accepted although raise_on_twins is on (model pardim %d, patch pardim %d)' % (mp, pd))
             except (TwinError, OrientationError):
                 count('twins')
-            m2 = SplineModel(pd, pd)
+            m2 = SplineModel(mp, mdim)
             m2.add(p, raise_on_twins=False)
             m2.add(twin, raise_on_twins=False)
             if len(m2.catalogue.nodes(pd)) != 2:
@@ -284,6 +288,7 @@ def run(tier, seed, replay=None):
         except Exception as e:  # noqa
             fail('twins', describe(cx), 'raised %s' % type(e).__name__)
         # handedness
+        pd = max(pd, 2)
         try:
             right = X.build(rng, pd, dim=pd, order=2, cells=[tuple([0] * pd)], kind='single', right_handed=True, phi=lambda q: np.asarray(q, dtype=float))['patches'][0]
             left = right.clone().reverse(0)
